@@ -290,6 +290,9 @@ type c15Hist struct {
 	// written the cache since (nil otherwise): what outage reads must answer
 	mirrored  *c15Snap
 	restarted bool // a restart since then
+	// the user profiles the primary held at the last copy that reported success (a direct copy or a turn
+	// of the background copier); empty before the first
+	ghost map[string][]byte
 }
 
 func (h *c15Hist) record(op, out string) {
@@ -566,6 +569,7 @@ func (h *c15Hist) syncFault(k, kind int, standing bool) (fired bool) {
 	h.mirrored, h.restarted = nil, false
 	if err == nil {
 		h.mirrored = &prim
+		h.ghost = prim.profiles
 	}
 	kase := map[string]interface{}{"history": h.human, "fault_at": k, "fault_kind": verifFaultNames[kind], "fault_standing": standing,
 		"statements": count, "failing_statement": failing}
@@ -637,6 +641,80 @@ func (h *c15Hist) sync() {
 	if h.syncFault(h.rng.Intn(26), c%verifNFaultKinds, c >= verifNFaultKinds) {
 		h.syncOnce(-1)
 	}
+}
+
+// one turn of the real background copier (BackgroundDBCopy: copy, purge of the primary, purge of the
+// cache), optionally with a transient fault at one of the first statements of its copy
+func (h *c15Hist) copier(k, kind int) {
+	e := h.e
+	e.settle()
+	h.tick()
+	prim, before := e.snapP(), e.snapC()
+	verifFault.armKind(k, kind, false)
+	ok, turns := e.copierTurn()
+	_, fired, _ := verifFault.disarm()
+	op := "(Copier None)"
+	if k >= 0 {
+		op = fmt.Sprintf("(Copier (Some (F %d%%nat %s true)))", k, verifFaultCoq[kind])
+	}
+	h.record(op, fmt.Sprintf("(OSync %s)", coqBool(ok)))
+	h.snapshot()
+	after := e.snapC()
+	h.mirrored, h.restarted = nil, false
+	if ok {
+		h.mirrored = &prim
+		h.ghost = prim.profiles
+	}
+	e.res.bump("op:copier-" + c15ModeNames[e.mode])
+	e.res.eval(fmt.Sprintf("copier|%d|%d|%v|%v", len(prim.profiles), len(prim.signed), ok, fired), len(prim.profiles)+len(before.profiles) > 0)
+	kase := map[string]interface{}{"history": h.human, "fault_at": k, "fault_kind": verifFaultNames[kind]}
+	if turns != 1 {
+		e.res.hit(verifHit{Key: "C15:copier:turns", Oracle: "the copier makes one turn, then sleeps its interval", What: fmt.Sprintf("%d turns of the copier before it could be stopped in its sleep", turns), Case: kase})
+	}
+	want := c15Mirror(prim, h.now)
+	if ok && !c15SameProfiles(after.profiles, want.profiles) {
+		e.res.hit(verifHit{Key: "C15:copier:reported-success-not-mirror", Oracle: "a turn of the copier that reports success leaves the cache holding exactly the primary's users",
+			What: fmt.Sprintf("the copier logged success; primary users=%d, cache users=%d (%s)", len(prim.profiles), len(after.profiles), c15MirrorDiff(after, want, prim)), Case: kase})
+	}
+	if !ok && !c15SameProfiles(after.profiles, before.profiles) {
+		e.res.hit(verifHit{Key: "C15:copier:reported-failure-changed-cache", Oracle: "a turn of the copier that reports a failure leaves the previous users in the cache",
+			What: fmt.Sprintf("the copier logged an error; cache users before=%d after=%d", len(before.profiles), len(after.profiles)), Case: kase})
+	}
+	for name, s := range map[string]c15Snap{"primary": e.snapP(), "cache": after} {
+		if name == "primary" && !c15Writable(e.mode) {
+			continue
+		}
+		for key, r := range s.signed {
+			if r.exp < h.now-1 {
+				e.res.hit(verifHit{Key: "C15:cleanup:expired-row-kept:" + name, Oracle: "every turn of the copier purges signed rows that expired",
+					What: fmt.Sprintf("row %s expired %d s ago and is still in the %s after a turn of the copier", key, h.now-r.exp, name), Case: kase})
+			}
+		}
+	}
+}
+
+func c15SameProfiles(a, b map[string][]byte) bool {
+	if len(a) != len(b) {
+		return false
+	}
+	for k, v := range a {
+		if w, ok := b[k]; !ok || !bytes.Equal(v, w) {
+			return false
+		}
+	}
+	return true
+}
+
+// the cache is never more than one completed copy behind: its users are those the primary held when the
+// last copy reported success
+func (h *c15Hist) lagOracle() {
+	got := h.e.snapC().profiles
+	if c15SameProfiles(got, h.ghost) {
+		return
+	}
+	h.e.res.hit(verifHit{Key: "C15:copier:cache-not-last-completed-copy", Oracle: "at every moment the cache holds the users the primary held when the last copy completed",
+		What: fmt.Sprintf("cache users=%d, users at the last completed copy=%d", len(got), len(h.ghost)),
+		Case: map[string]interface{}{"history": h.human}})
 }
 
 // the daemon is restarted on the same data directory
@@ -734,8 +812,14 @@ func (h *c15Hist) randomOp() {
 		err := h.e.st.DeleteSigned(c15Users[u], ty)
 		h.record(fmt.Sprintf("(DelSigned %d%%N %d%%N)", u, ty), errOut(err))
 		h.e.res.bump("op:delsigned")
-	case w < 76:
+	case w < 71:
 		h.sync()
+	case w < 76:
+		if rng.Intn(3) == 0 {
+			h.copier(rng.Intn(8), rng.Intn(verifNFaultKinds))
+		} else {
+			h.copier(-1, 0)
+		}
 	case w < 80:
 		h.cleanup()
 	case w < 84:
@@ -1093,6 +1177,7 @@ func TestVerif_C15(t *testing.T) {
 			n := 3 + rng.Intn(7)
 			for j := 0; j < n; j++ {
 				h.randomOp()
+				h.lagOracle()
 			}
 			// finish with a completed copy and reads during an outage
 			if !c15Writable(h.e.mode) {
@@ -1124,6 +1209,7 @@ func TestVerif_C15(t *testing.T) {
 			}
 			h.getS(1+rng.Intn(3), 1)
 			h.users()
+			h.lagOracle()
 		})
 	}
 	res.Extra["fault_points"] = totalFaults
